@@ -16,7 +16,8 @@ Composites (`BB.Caching.compGet` …; backends `src` = slow/secondary, `sink` = 
 Deduplicating replicator (`dstep`, `dSettle`):
     d.init | d.call <cancelled> <k>… | d.cancel <i> | d.sink <i> present|missing|err <code> <id>
     d.copy <i> ok | d.copy <i> err <code> <id> | d.settle [p <i>…] [a <i>…]  -> state of every caller
-Concurrency limiting (`lstep`): l.init <cap> | l.call <cancelled> <k>… | l.cancel <i> | l.base <i> ok|err… | l.settle …
+Concurrency limiting (`lstep`): l.init <cap> | l.call <cancelled> <m|s|c> <k>… (ReplicateMultiple / Single / Composite) | l.cancel <i>
+    l.base <i> ok (base copied into the sink) | okn (nil without copying) | err <code> <id> | l.settle …
 Queued (`qstep`): q.init <cap> <dur> | q.call <cancelled> <now> <k>… | q.cancel <i> | q.base <i> <now> ok|err… | q.settle <now> …
 Existence caching (`ecFindMissing`): e.init <cap> <dur> | e.set <k> | e.del <k> | e.fault <code> <id> | e.fault none
     e.fm <now1> <now2> <k>…       -> ok <missing>… / asked <k>… | err <code> <id> / asked <k>…
@@ -226,13 +227,27 @@ def stepL (s : S) : List String → S × String
     match nat? cap with
     | some cap => ({ s with l := { cap := cap } }, "ok")
     | none => (s, "bad-op")
-  | "l.call" :: cn :: ks =>
-    match bool? cn, allNats? ks with
-    | some cn, some ks =>
-      match lstep s.l (.call ks cn) with
+  | "l.call" :: cn :: kind :: ks =>
+    let act : Option LAct := match bool? cn, allNats? ks with
+      | some cn, some ks =>
+        if kind == "m" then some (.call ks cn)
+        else match ks with
+          | [k] => if kind == "s" then some (.callRead .single k cn)
+                   else if kind == "c" then some (.callRead .composite k cn) else none
+          | _ => none
+      | _, _ => none
+    match act with
+    | some act =>
+      match lstep s.l act with
       | some l => ({ s with l := l }, s!"ok {s.l.callers.length}")
       | none => (s, "disabled")
-    | _, _ => (s, "bad-op")
+    | none => (s, "bad-op")
+  | ["l.base", i, "ok"] =>
+    match nat? i with
+    | some i => match lstep s.l (.baseCopied i) with
+      | some l => ({ s with l := l }, "ok")
+      | none => (s, "disabled")
+    | none => (s, "bad-op")
   | ["l.cancel", i] =>
     match nat? i with
     | some i => match lstep s.l (.cancel i) with
@@ -240,7 +255,7 @@ def stepL (s : S) : List String → S × String
       | none => (s, "disabled")
     | none => (s, "bad-op")
   | "l.base" :: i :: rest =>
-    match nat? i, parseErr rest with
+    match nat? i, parseErr (if rest == ["okn"] then ["ok"] else rest) with
     | some i, some r => match lstep s.l (.baseEnd i r) with
       | some l => ({ s with l := l }, "ok")
       | none => (s, "disabled")
